@@ -45,6 +45,7 @@ func (r *BasicPublicTokenRequest) Marshal() []byte {
 }
 
 func (r *BasicPublicTokenRequest) Unmarshal(data []byte) bool {
+	r.raw = nil
 	s := cryptobyte.String(data)
 
 	var tokenType uint16
